@@ -78,7 +78,9 @@ type c14Sweep struct {
 	mayNil      map[*types.Func]bool
 	nilTol      map[*types.Func]bool
 	paramTol    map[*types.Func]map[int]bool
-	regexGroups map[string]int // package-level regexp variable -> number of groups
+	regexGroups map[string]int    // package-level regexp variable -> number of groups
+	tagStrings  map[string]string // TagSex -> "SEX" (var TagSex = newTag("SEX", ...))
+	TagAsserts  map[string]bool   // "SEX|SexNode": a node found by that tag is asserted to have that Go type
 	reach       map[*types.Func]bool
 	closes      map[string]int // channel identifier -> number of close() calls in the module
 	fieldInit   map[string]string
@@ -234,6 +236,28 @@ func (s *c14Sweep) index() {
 	}
 	s.Funcs = len(s.decls)
 	s.regexGroups = map[string]int{}
+	s.tagStrings = map[string]string{}
+	s.TagAsserts = map[string]bool{}
+	for _, p := range s.pkgs {
+		for _, f := range p.files {
+			ast.Inspect(f, func(n ast.Node) bool {
+				vs, ok := n.(*ast.ValueSpec)
+				if !ok {
+					return true
+				}
+				for i, nm := range vs.Names {
+					if i < len(vs.Values) {
+						if call, ok := vs.Values[i].(*ast.CallExpr); ok && s.str(call.Fun) == "newTag" && len(call.Args) > 0 {
+							if tv := p.info.Types[call.Args[0]]; tv.Value != nil && tv.Value.Kind() == constant.String {
+								s.tagStrings[nm.Name] = constant.StringVal(tv.Value)
+							}
+						}
+					}
+				}
+				return true
+			})
+		}
+	}
 	for _, p := range s.pkgs {
 		for _, f := range p.files {
 			for _, d := range f.Decls {
@@ -774,8 +798,9 @@ type c14FnCtx struct {
 	nilVars map[types.Object]string // variable -> the may-return-nil call it was assigned from
 	made    map[types.Object]bool   // map variables assigned from make / a composite literal
 	seen    map[string]int
-	alias   map[string]string // local assigned once: name -> `len(x)` or an integer literal
-	reSub   map[string]int    // local assigned from <regexp>.FindStringSubmatch: name -> groups
+	tagOf   map[types.Object]string // local bound to NodesWithTag(_, TagY): "list:TagY", "one:TagY", "elem:TagY"
+	alias   map[string]string       // local assigned once: name -> `len(x)` or an integer literal
+	reSub   map[string]int          // local assigned from <regexp>.FindStringSubmatch: name -> groups
 }
 
 func (c *c14FnCtx) add(n ast.Node, kind, expr, class, evidence string) {
@@ -840,7 +865,119 @@ func (c *c14FnCtx) factsN(stack []ast.Node) (facts []c14Fact, ranges []c14RangeF
 	return
 }
 
+// tagCall: e is NodesWithTag(_, TagY) -> "list:TagY"; First/Last of it -> "one:TagY".
+func (c *c14FnCtx) tagCall(e ast.Expr) string {
+	call, ok := e.(*ast.CallExpr)
+	if !ok {
+		return ""
+	}
+	switch c14lastIdent(call.Fun) {
+	case "NodesWithTag":
+		if len(call.Args) == 2 {
+			return "list:" + c14lastIdent(call.Args[1])
+		}
+	case "First", "Last":
+		if len(call.Args) == 1 {
+			if t := c.tagCall(call.Args[0]); strings.HasPrefix(t, "list:") {
+				return "one:" + strings.TrimPrefix(t, "list:")
+			}
+			if id, ok := call.Args[0].(*ast.Ident); ok {
+				if t := c.tagOf[c.p.info.Uses[id]]; strings.HasPrefix(t, "list:") {
+					return "one:" + strings.TrimPrefix(t, "list:")
+				}
+			}
+		}
+	}
+	return ""
+}
+
+func (c *c14FnCtx) prepareTags() {
+	c.tagOf = map[types.Object]string{}
+	info := c.p.info
+	ast.Inspect(c.body, func(n ast.Node) bool {
+		switch v := n.(type) {
+		case *ast.AssignStmt:
+			if len(v.Lhs) == len(v.Rhs) {
+				for i := range v.Lhs {
+					if id, ok := v.Lhs[i].(*ast.Ident); ok {
+						if t := c.tagCall(v.Rhs[i]); t != "" {
+							o := info.Defs[id]
+							if o == nil {
+								o = info.Uses[id]
+							}
+							if o != nil {
+								c.tagOf[o] = t
+							}
+						}
+					}
+				}
+			}
+		case *ast.RangeStmt:
+			if id, ok := v.Value.(*ast.Ident); ok && info.Defs[id] != nil {
+				t := c.tagCall(v.X)
+				if t == "" {
+					if x, ok := v.X.(*ast.Ident); ok {
+						t = c.tagOf[info.Uses[x]]
+					}
+				}
+				if strings.HasPrefix(t, "list:") {
+					c.tagOf[info.Defs[id]] = "elem:" + strings.TrimPrefix(t, "list:")
+				}
+			}
+		}
+		return true
+	})
+}
+
+// tagAssert: x.(T) where x is a node found by a tag; returns "TAG|Type" when the assertion is the
+// claim "a node with this tag has this Go type" ("" otherwise).
+func (c *c14FnCtx) tagAssert(v *ast.TypeAssertExpr, stack []ast.Node) string {
+	ts := strings.TrimPrefix(strings.TrimPrefix(strings.TrimPrefix(c.s.str(v.Type), "[]"), "*"), "gedcom.")
+	tagVar := ""
+	switch x := v.X.(type) {
+	case *ast.Ident:
+		t := c.tagOf[c.p.info.Uses[x]]
+		switch {
+		case strings.HasPrefix(t, "elem:"):
+			tagVar = strings.TrimPrefix(t, "elem:")
+		case strings.HasPrefix(t, "one:"):
+			// First()/Last() give a nil interface for an empty list: the assertion needs the nil check
+			facts, _, _ := c.factsN(stack)
+			for _, f := range facts {
+				if !f.pos && (f.cond == "IsNil("+x.Name+")" || f.cond == "gedcom.IsNil("+x.Name+")" || f.cond == x.Name+" == nil") ||
+					f.pos && (f.cond == x.Name+" != nil") {
+					tagVar = strings.TrimPrefix(t, "one:")
+				}
+			}
+		}
+	case *ast.CallExpr:
+		switch c14lastIdent(x.Fun) {
+		case "castNodesWithTag":
+			if len(x.Args) == 3 {
+				tagVar = c14lastIdent(x.Args[1])
+			}
+		case "CastTo":
+			if sel, ok := x.Fun.(*ast.SelectorExpr); ok {
+				if id, ok := sel.X.(*ast.Ident); ok {
+					if t := c.tagOf[c.p.info.Uses[id]]; strings.HasPrefix(t, "list:") {
+						tagVar = strings.TrimPrefix(t, "list:")
+					}
+				}
+			}
+		}
+	}
+	if tagVar == "" {
+		return ""
+	}
+	tag, ok := c.s.tagStrings[tagVar]
+	if !ok {
+		return ""
+	}
+	return tag + "|" + ts
+}
+
 func (c *c14FnCtx) prepare() {
+	c.prepareTags()
 	c.alias = map[string]string{}
 	c.reSub = map[string]int{}
 	assignCount := map[string]int{}
@@ -1046,7 +1183,14 @@ func (c *c14FnCtx) visit(stack []ast.Node) {
 		if v.Type == nil || c.okTA[v] {
 			return
 		}
-		c.classify(n, "type-assert", s.str(v), c.assertGuard(v, stack))
+		if g := c.assertGuard(v, stack); g != "" {
+			c.classify(n, "type-assert", s.str(v), g)
+		} else if ta := c.tagAssert(v, stack); ta != "" {
+			s.TagAsserts[ta] = true
+			c.add(n, "type-assert", s.str(v), "invariant", "tag_asserts_sound")
+		} else {
+			c.classify(n, "type-assert", s.str(v), "")
+		}
 	case *ast.BinaryExpr:
 		if (v.Op == token.QUO || v.Op == token.REM) && c.isInt(v.X) && c.isInt(v.Y) {
 			if tv := info.Types[v]; tv.Value != nil {
@@ -1658,7 +1802,7 @@ func c14SweepOps(repo string) (*c14Sweep, error) {
 		return a.Line < b.Line
 	})
 	for _, o := range s.Ops {
-		if o.Class == "local" {
+		if o.Class == "local" || o.Class == "invariant" {
 			continue
 		}
 		if e, ok := c14OpsTable[o.Key()]; ok {
